@@ -609,7 +609,16 @@ def rule_r10(ctx, rid="C13.R10"):
     ctx.r.floor(rid, n, 1, "functions using explicit acquire()")
 
 
-RULES = [rule_r1, rule_r2, rule_r3, rule_r4, rule_r5, rule_r6, rule_r7, rule_r8, rule_r9, rule_r10]
+def rule_r11(ctx):
+    """Shared with C12.R3 (teardown wakes a paused worker: otherwise the worker is lost to the pool and other connections
+    starve) and C12.R8 (the I/O thread's flush closes on a disconnect errno: otherwise the faulted connection is never torn
+    down and stays in the polled set)."""
+    from . import c12
+    c12.rule_r3(ctx, rid="C13.R11")
+    c12.rule_r8(ctx, rid="C13.R11")
+
+
+RULES = [rule_r1, rule_r2, rule_r3, rule_r4, rule_r5, rule_r6, rule_r7, rule_r8, rule_r9, rule_r10, rule_r11]
 
 
 from ..selftest import M, T, V  # noqa: E402
